@@ -28,31 +28,31 @@ PLANS = {
  'C02': {
   'level': 'exploration', 'steps': [e3('gcm')], 'eval_stats': ['calls_gcm'], 'distinct_key': 'shape',
   'rule': "exhaustive grid: len in [0,1100] + carry windows around 4096 and 65536, AAD length set, tag in {8,12,16}, data offsets, in-place/disjoint, x {sse,avx_gen2,avx_gen4,vaes_avx512} x {regular,nt} x {enc,dec} x {128,256}; a case is distinct by (entry point, len, aad, tag, placement, offset, in-place); every one is compared with the bit-serial SP 800-38D reference",
-  'bound': {'quick': 'len<=1100 + 4096+-20 + 65536+-17; 9 AAD lengths; 2 offsets', 'thorough': 'len<=1100 + 4096+-320 + 65536+-64; 49 AAD lengths; 16 offsets'},
+  'bound': {'quick': 'len<=1100 + 4096+-20 + 65536+-17; 9 AAD lengths; 2 offsets', 'thorough': 'len<=1100 + 4096+-320 + 65536+-64 + six lengths around 2^20; 49 AAD lengths; 16 offsets'},
   'deadline': {'quick': 240, 'thorough': 2400}, 'assumptions': A_COMMON,
  },
  'C03': {
   'level': 'exploration', 'steps': [e3('xts')], 'eval_stats': ['calls_xts'], 'distinct_key': 'shape',
   'rule': "exhaustive grid: len in [0,1100] + 4096+-40 (+65536, 65551 thorough) x {128,256} x {enc,dec} x {sse,avx,vaes} x {raw,expanded key (reference and library schedules)} x tweaks {random, all-ones, top-bit} x offsets of data/keys/tweak x in-place/disjoint; compared with IEEE 1619 reference; len<16 must leave the output untouched",
-  'bound': {'quick': 'len<=1100, 2 offsets', 'thorough': 'len<=1100, 16 offsets, all 3 tweaks everywhere'},
+  'bound': {'quick': 'len<=1100, 2 offsets', 'thorough': 'len<=1100, 16 offsets, all 3 tweaks everywhere; 2^20+17, 2^24-16, 2^24-1, 2^24 (documented maximum)'},
   'deadline': {'quick': 240, 'thorough': 2400}, 'assumptions': A_COMMON,
  },
  'C04': {
   'level': 'exploration', 'steps': [e3('cbc', 8, 16), e3('keyexp', 4, 8)], 'eval_stats': ['calls_cbc', 'calls_keyexp'], 'distinct_key': 'shape',
   'rule': "key expansion: {128,192,256} x {sse,avx} (+_enc variant) x keys {zero, ones, counting, seeded random} x key/schedule alignments, both schedules compared word for word with FIPS-197 (+InvMixColumns); CBC: len=16N, N in [1,70] + {255,256,257}(+4096) x {x4,x8} enc x {sse,avx,vaes_avx512} dec x key sizes x offsets x in-place/disjoint against SP 800-38A reference",
-  'bound': {'quick': '120 keys; N<=70; 3 offsets', 'thorough': '600 keys; N<=70 + 4096; 16 offsets'},
+  'bound': {'quick': '120 keys; N<=70; 3 offsets', 'thorough': '600 keys; N<=70 + 4096 + 65536; 16 offsets'},
   'deadline': {'quick': 120, 'thorough': 1200}, 'assumptions': A_COMMON,
  },
  'C05': {
   'level': 'exploration', 'steps': [e2('mh1'), e2('mh256')], 'eval_stats': ['streams'], 'distinct_key': 'shape',
-  'rule': "all update segmentations (l1,l2[,l3]) of a stream followed by finalize, on every family {base,sse,avx,avx2,avx512} of mh_sha1 and mh_sha256, plus the public dispatched entry points; quick: l1 in [0,1040] x structured l2 set (block boundaries +-1, complements of l1 to 1024/2048) x third piece from {0,1,17,1023,1024,1025}; thorough: l1,l2 in [0,2049]^2; compared with the multi-hash definition computed by an independent reference; distinct = (family entry, piece lengths)",
-  'bound': {'quick': 'l1<=1040, ~36 l2 values, 3 l3 values', 'thorough': 'l1,l2 in [0,2049]^2 + l3'},
-  'deadline': {'quick': 240, 'thorough': 3000}, 'assumptions': A_COMMON + ['stream lengths stay below 6200 bytes; the 2^32 bound of the property is touched only through the 32-bit total-length cast'],
+  'rule': "all update segmentations (l1,l2[,l3]) of a stream followed by finalize, on every family {base,sse,avx,avx2,avx512} of mh_sha1 and mh_sha256, plus the public dispatched entry points; quick: l1 in [0,1040] x structured l2 set (block boundaries +-1, complements of l1 to 1024/2048) x third piece from {0,1,17,1023,1024,1025}; thorough: l1,l2 in [0,2049]^2; compared with the multi-hash definition computed by an independent reference; length accounting up to the property's 2^32 limit: the running total is advanced by a multiple of 1024 after an update so that the stream ends around 2^29, 2^31 and just below 2^32 at every residue (reference given the same offset), validated in the thorough tier by a genuine 2^29+1024-byte stream per family; distinct = (family entry, piece lengths, offset)",
+  'bound': {'quick': 'l1<=1040, ~36 l2 values, 3 l3 values; 6 length offsets x 22 l2', 'thorough': 'l1,l2 in [0,2049]^2 + l3; 15 length offsets; genuine 2^29-byte streams'},
+  'deadline': {'quick': 240, 'thorough': 3000}, 'assumptions': A_COMMON + ['real stream lengths stay below 6200 bytes (2^29+1024 in the thorough tier); larger totals are reached by advancing total_length by a multiple of the block size, which is the same state as far as the library uses that field (modulo 1024 and in the final length fields)'],
  },
  'C10': {
   'level': 'exploration', 'steps': [e2('mur')], 'eval_stats': ['streams'], 'distinct_key': 'shape',
-  'rule': "as C05 for the stitched mh_sha1+murmur3_x64_128 function on every family, seeds {0,1,2^32-1,2^63,0x0123456789abcdef} rotated over the cases, second pieces additionally all of [0,40] so that every (total mod 16) x (position in the 1024-byte block) carry of the murmur tail occurs; both outputs compared with stand-alone references",
-  'bound': {'quick': 'l1<=1040, ~77 l2 values', 'thorough': 'l1,l2 in [0,2049]^2'},
+  'rule': "as C05 for the stitched mh_sha1+murmur3_x64_128 function on every family, seeds {0,1,2^32-1,2^63,0x0123456789abcdef} rotated over the cases, second pieces additionally all of [0,40] so that every (total mod 16) x (position in the 1024-byte block) carry of the murmur tail occurs; both outputs compared with stand-alone references; totals around 2^29, 2^31 and just below 2^32 by length offset as in C05 (the murmur finalisation mixes the total length)",
+  'bound': {'quick': 'l1<=1040, ~77 l2 values; 6 length offsets', 'thorough': 'l1,l2 in [0,2049]^2; 15 length offsets; genuine 2^29-byte streams'},
   'deadline': {'quick': 240, 'thorough': 3000}, 'assumptions': A_COMMON,
  },
  'C07': {
